@@ -350,6 +350,7 @@ def run(ctx):
         if missing:
             raise MachineryError('vacuous: situations not in the configuration space: %s' % missing)
         sign_hist_stage_a(ctx)
+        check_hist_stage_a(ctx)
     if 'B' in ctx.stages:
         lines, r = pk.gen(ctx, scale, 'c02')
         budget = tamper_budget(ctx)
@@ -410,9 +411,10 @@ def run(ctx):
         ctx.note('B: %d signed/digest configurations range-checked, %d tampered wires judged (exhaustive on %s)' % (
             n_cfg, n_t, dict(('%s/%s' % k, v) for k, v in sorted(used.items()))))
         sign_hist_stage_b(ctx, pool)
+        check_hist_stage_b(ctx, pool)
     if 'C' in ctx.stages:
         recs = []
-        n = ctx.pick(300, 4000)
+        n = ctx.pick(250, 4000)
         tries = 0
         while len(recs) < n and tries < n * 4:
             tries += 1
@@ -431,6 +433,7 @@ def run(ctx):
         ctx.note('C: %d recorded packets (%d tampered wires) judged by TLC, %d rejected' % (len(recs), nt, len(rejected)))
         report_trace_rejections(ctx, recs, rejected)
         sign_hist_stage_c(ctx, pool)
+        check_hist_stage_c(ctx, pool)
 
 
 def report_trace_rejections(ctx, recs, rejected):
@@ -442,6 +445,167 @@ def report_trace_rejections(ctx, recs, rejected):
                       'recorded packet rejected by NdnPacketsTrace (clause %s = %s): cfg %s' % (
                           code, names.get(str(code).strip()), json.dumps(rec['cfg'])[:500]),
                       {'kind': 'trace', 'rec': rec, 'code': code})
+
+
+# ---------------------------------------------------------------- several verifier objects (NdnPacketsCheckHist)
+
+CHECK_CLASSES = ['rsa', 'ecdsa', 'hmac', 'ed25519']
+
+
+class CheckWorld:
+    """Keys, names, genuine packets and verifier objects of one class for a history."""
+
+    def __init__(self, cls, pool, rng, nkey, nname):
+        from ndn.security import Sha256WithRsaSigner, Sha256WithEcdsaSigner, HmacSha256Signer, Ed25519Signer
+        from ndn.encoding import make_data, make_interest, MetaInfo, InterestParam
+        self.cls = cls
+        keys = pool.more[cls]
+        if nkey > len(keys):
+            raise MachineryError('key pool has only %d %s keys' % (len(keys), cls))
+        self.keys = keys[:nkey]
+        # unrelated key names (no one is a prefix of another)
+        self.names = [[b'\x08\x02k' + bytes([48 + i]), b'\x08\x03KEY', b'\x08\x04' + rng.randbytes(4)] for i in range(nname)]
+        self.mk = {'rsa': lambda n, k: Sha256WithRsaSigner(n, k[0]), 'ecdsa': lambda n, k: Sha256WithEcdsaSigner(n, k[0]),
+                   'hmac': lambda n, k: HmacSha256Signer(n, k), 'ed25519': lambda n, k: Ed25519Signer(n, k[0])}[cls]
+        self.enc = (make_data, make_interest, MetaInfo, InterestParam)
+        self.pkts = {}
+        self.rng = rng
+
+    def packet(self, pn, pk_):
+        """A genuine packet signed with key pk_ under KeyLocator name pn (names are fresh per history, so packets are
+        made on demand)."""
+        kind = self.rng.choice(['data', 'interest'])
+        if (pn, pk_, kind) not in self.pkts:
+            make_data, make_interest, MetaInfo, InterestParam = self.enc
+            sg = self.mk(self.names[pn - 1], self.keys[pk_ - 1])
+            if kind == 'data':
+                w = make_data([b'\x08\x01d', b'\x08\x02' + self.rng.randbytes(2)], MetaInfo(), self.rng.randbytes(5), signer=sg)
+            else:
+                w = make_interest([b'\x08\x01i'], InterestParam(), self.rng.randbytes(3), signer=sg)
+            self.pkts[(pn, pk_, kind)] = bytes(w)
+        return kind, self.pkts[(pn, pk_, kind)]
+
+    def pub_bits(self, ki):
+        k = self.keys[ki - 1]
+        return k if self.cls == 'hmac' else bytes(k[1].export_key(format='DER'))
+
+    def make(self, inst):
+        """inst = {n, k, named} -> callable(name, sig_ptrs) -> bool"""
+        if inst['named']:
+            C = {'rsa': RsaChecker, 'ecdsa': EccChecker, 'hmac': HmacChecker, 'ed25519': Ed25519Checker}[self.cls]
+            v = C.from_key(self.names[inst['n'] - 1], self.pub_bits(inst['k']))
+            return lambda name, sp: bool(run_sync(v(name, sp)))
+        f = {'rsa': verify_rsa, 'ecdsa': verify_ecdsa, 'hmac': verify_hmac, 'ed25519': verify_ed25519}[self.cls]
+        key = self.keys[inst['k'] - 1]
+        key = key if self.cls == 'hmac' else key[1]
+        return lambda name, sp: bool(f(key, sp))
+
+    def ask(self, v, pn, pk):
+        kind, wire = self.packet(pn, pk)
+        name, _, _, sp = parse_interest(wire) if kind == 'interest' else parse_data(wire)
+        try:
+            return v(name, sp)
+        except Exception:  # noqa: a verifier that raises has not accepted
+            return False
+
+
+def run_check_history(ctx, cls, insts, checks, pool, nkey, nname):
+    w = CheckWorld(cls, pool, ctx.rng, nkey, nname)
+    vs = [w.make(i) for i in insts]
+    ev = [{'a': 'Check', 'i': i, 'pn': pn, 'pk': pk, 'acc': w.ask(vs[i - 1], pn, pk)} for (i, pn, pk) in checks]
+    return {'cls': cls, 'insts': insts, 'ev': ev}
+
+
+def judge_check_histories(ctx, hists, stage):
+    rej = pk.judge(ctx, 'NdnPacketsCheckHistTrace', 'NdnPacketsCheckHistTrace.cfg',
+                   [{'insts': h['insts'], 'ev': h['ev']} for h in hists], 'c02-checkhist-' + stage)
+    for i, at in rej:
+        h = hists[i]
+        k = int(str(at).strip() or 0)
+        e = h['ev'][k - 1] if 0 < k <= len(h['ev']) else None
+        inst = h['insts'][e['i'] - 1] if e else None
+        right = e is not None and inst['k'] == e['pk'] and (not inst['named'] or inst['n'] == e['pn'])
+        ctx.violation('C02/verifier-objects/%s/%s/%s' % (h['cls'], 'checker' if inst and inst['named'] else 'verify-function',
+                                                        'rejects-packet-of-its-own-key' if right else 'accepts-packet-of-another-key-or-name'),
+                      'several %s verifier objects %s: check #%d %s answered %s; a verdict may depend only on that verifier\'s key/name and the packet; events %s'
+                      % (h['cls'], h['insts'], k, e, e and e['acc'], h['ev']),
+                      {'kind': 'check-history', 'cls': h['cls'], 'insts': h['insts'], 'checks': [[e_['i'], e_['pn'], e_['pk']] for e_ in h['ev']],
+                       'rejected_at': k})
+    return rej
+
+
+def check_hist_stage_a(ctx):
+    cp = os.path.join(tlc.BUILD, 'NdnPacketsCheckHist.cfg')
+    c = {'NKey': 2, 'NName': 2, 'NInst': 2, 'MaxChecks': ctx.pick(3, 4), 'DevNameCache': 'FALSE', 'Plain': 'TRUE'}
+    tlc.write_cfg(cp, constants=c, invariants=['OwnKeyOnly'])
+    r = tlc.run('NdnPacketsCheckHist', cp, workers=2, heavy=False)
+    ctx.add_tlc('NdnPacketsCheckHist %s' % c, r)
+    if r.violated:
+        ctx.violation('C02/spec/NdnPacketsCheckHist/%s' % r.violated, 'TLC: %s violated' % r.violated, {'trace': r.errtrace[:2000]})
+    tlc.write_cfg(cp, constants=dict(c, MaxChecks=2, DevNameCache='TRUE'), invariants=['OwnKeyOnly'])
+    if tlc.run('NdnPacketsCheckHist', cp, workers=1, heavy=False).violated != 'OwnKeyOnly':
+        raise MachineryError('OwnKeyOnly does not refute the name-keyed cache deviation')
+    # vacuity: the exhaustive run must have visited every (verifier pair, check sequence)
+    want = 16 * sum(8 ** j for j in range(c['MaxChecks'] + 1))
+    if r.ok and r.distinct != want:
+        raise MachineryError('NdnPacketsCheckHist visited %d states, expected %d' % (r.distinct, want))
+
+
+def check_hist_stage_b(ctx, pool):
+    from harness import graph
+    cp = os.path.join(tlc.BUILD, 'NdnPacketsCheckHist_g.cfg')
+    m = ctx.pick(2, 3)
+    tlc.write_cfg(cp, constants={'NKey': 2, 'NName': 2, 'NInst': 2, 'MaxChecks': m, 'DevNameCache': 'FALSE',
+                                 'Plain': ctx.pick('FALSE', 'TRUE')}, invariants=['OwnKeyOnly'])
+    g = graph.dump('NdnPacketsCheckHist', cp, workers=2)
+    ctx.add_tlc('NdnPacketsCheckHist graph MaxChecks=%d (%d edges)' % (m, g.n_edges), g.tlc)
+    paths = graph.edge_cover_paths(g, max_len=m)
+    hists = []
+    for k, (init, path) in enumerate(paths):
+        insts = [dict(n=i['n'], k=i['k'], named=bool(i['named'])) for i in tlaval_seq(g.state[init]['insts'])]
+        checks = [tuple(args) for a, args, _ in path]
+        want = [bool(e['acc']) for e in tlaval_seq(g.state[path[-1][2]]['log'])]
+        # one verifier class per path (round robin), two in thorough; every class sees every pattern many times
+        for cls in [CHECK_CLASSES[(k + j) % 4] for j in range(ctx.pick(1, 2))]:
+            h = run_check_history(ctx, cls, insts, checks, pool, 2, 2)
+            got = [e['acc'] for e in h['ev']]
+            if got != want:
+                j = next(x for x in range(len(got)) if got[x] != want[x])
+                e = h['ev'][j]
+                ctx.violation('C02/verifier-objects/%s/replay/%s' % (cls, 'rejects-packet-of-its-own-key' if want[j] else 'accepts-packet-of-another-key-or-name'),
+                              'verifier objects %s asked %s answered %s, TLC state says %s' % (insts, checks, got, want),
+                              {'kind': 'check-history', 'cls': cls, 'insts': insts, 'checks': [list(c) for c in checks]})
+            hists.append(h)
+            ctx.traces += 1
+            ctx.evaluations += len(checks)
+            if len(checks) >= 2:
+                ctx.nt(['B-verifiers', cls, insts, checks])
+    rej = judge_check_histories(ctx, hists, 'B')
+    ctx.note('B: %d cover paths of the verifier-object graph (%d states, %d edges): %d histories on real checkers, %d rejected' % (
+        len(paths), len(g.state), g.n_edges, len(hists), len(rej)))
+
+
+def tlaval_seq(v):
+    from harness.tlaval import seq
+    return list(seq(v))
+
+
+def check_hist_stage_c(ctx, pool):
+    hists = []
+    for k in range(ctx.pick(40, 1200)):
+        cls = CHECK_CLASSES[k % 4]
+        nkey = min(ctx.rng.randint(2, 3), len(pool.more[cls]))
+        nname = ctx.rng.randint(1, 3)
+        insts = [{'n': ctx.rng.randint(1, nname), 'k': ctx.rng.randint(1, nkey), 'named': ctx.rng.random() < 0.75}
+                 for _ in range(ctx.rng.randint(2, 4))]
+        checks = [(ctx.rng.randint(1, len(insts)), ctx.rng.randint(1, nname), ctx.rng.randint(1, nkey))
+                  for _ in range(ctx.rng.randint(4, ctx.pick(8, 14)))]
+        hists.append(run_check_history(ctx, cls, insts, checks, pool, nkey, nname))
+        ctx.traces += 1
+        ctx.evaluations += len(checks)
+        ctx.nt(['C-verifiers', cls, insts, checks])
+    rej = judge_check_histories(ctx, hists, 'C')
+    ctx.note('C: %d random histories over several verifier objects judged by TLC, %d rejected' % (len(hists), len(rej)))
 
 
 # ---------------------------------------------------------------- signer-reuse histories (NdnPacketsSignHist)
@@ -510,9 +674,8 @@ def sign_hist_stage_a(ctx):
     tlc.write_cfg(cp, constants={'MaxPk': 3, 'DevAccum': 'TRUE'}, invariants=['OwnPortionOnly'])
     if tlc.run('NdnPacketsSignHist', cp, workers=1, heavy=False).violated != 'OwnPortionOnly':
         raise MachineryError('OwnPortionOnly does not refute the accumulating-context deviation')
-    tlc.write_cfg(cp, constants={'MaxPk': 3, 'DevAccum': 'FALSE'}, invariants=['W_Third'])
-    if tlc.run('NdnPacketsSignHist', cp, workers=1, heavy=False).violated != 'W_Third':
-        raise MachineryError('witness W_Third not reachable')
+    if r.ok and r.distinct != 2 ** (ctx.pick(4, 6) + 1) - 1:
+        raise MachineryError('NdnPacketsSignHist visited %d states' % r.distinct)
 
 
 def sign_hist_stage_b(ctx, pool):
@@ -617,6 +780,18 @@ def replay(ctx, path):
     import random
     with open(path) as f:
         obj = json.load(f)
+    if obj.get('kind') == 'check-history':
+        pool = pk.Pool(ctx.rng)
+        nk = max([i['k'] for i in obj['insts']] + [c[2] for c in obj['checks']])
+        nn = max([i['n'] for i in obj['insts']] + [c[1] for c in obj['checks']])
+        h = run_check_history(ctx, obj['cls'], obj['insts'], [tuple(c) for c in obj['checks']], pool, nk, nn)
+        print('%s verifier objects %s ->' % (obj['cls'], obj['insts']))
+        for e in h['ev']:
+            print('  ', e)
+        rej = judge_check_histories(ctx, [h], 'replay')
+        for v in ctx.violations:
+            print('reproduced:', v['sig'], '-', v['what'][:200])
+        return 1 if ctx.violations else 0
     if obj.get('kind') == 'sign-history':
         pool = pk.Pool(ctx.rng)
         h, recs = run_sign_history(ctx, obj['signer'], obj['kinds'], pool)
